@@ -244,7 +244,25 @@ CLAIMED.update({
              "what ListPath shows (it is held outside the attribute list); its stored value is compared instead."),
 })
 
-NOT_YET = {"C19": "check not built yet in this session (see DESIGN.md 6 build order)"}
+CLAIMED.update({
+    "C19": dict(
+        category="exploration", design_ref="DESIGN.md 5 (C19)",
+        technique="TLA+ function-style spec MonitorRecord.tla (monitored events -> structural fields an independent reader must find, "
+                  "verdict Reason) whose events TLC enumerates; every event is converted by the daemon's real converters and encoded "
+                  "by the real BmpCodec / MrtCodec / dump_table, read back by a reader written from RFC 7854 / 6396 / 8050 with the "
+                  "embedded PDUs parsed by the repository's BGP parser, and the observations validated by TLC against "
+                  "MonitorRecordTrace.tla; TLA+ state machine BmpSession.tla replayed on the real BmpClient::serve over real sessions",
+        text="867 monitored events (Route Monitoring in 5 views x peer family x 5 address families x add-path x reach / unreach / "
+             "end-of-rib x NLRI count up to 20,000 x attribute size up to 5.2k x next-hop family; Peer Up / Down / Initiation; "
+             "BGP4MP; TABLE_DUMP_V2 dumps of real tables) produce ~4,000 BMP messages / MRT records that are read back and judged "
+             "by the specification.  Bounded to the sample NLRI / attribute values; Stats Reports and Route Mirroring are not "
+             "emitted by the daemon.",
+        note="Trusted: the reader (RFC transcription) and the repository's BGP parser for the embedded PDUs; Route Monitoring "
+             "headers of the live path are rebuilt in the harness as BmpClient::serve builds them (the session half runs serve "
+             "itself)."),
+})
+
+NOT_YET = {}
 
 HOOK_COMMITS = []
 
